@@ -41,7 +41,10 @@ LABELS = ['', 'Energy [keV]', 'x', 'Entries/bin', 'Time [s]', 'phi (rad)', 'a b 
 def random_hist(g, ndim):
     from ixpeobssim.core.hist import xHistogram1d, xHistogram2d, xHistogram3d
     cls = {1: xHistogram1d, 2: xHistogram2d, 3: xHistogram3d}[ndim]
-    sizes = [int(x) for x in g.choice(numpy.arange(1, 7), ndim, replace=False)]     # all different: no cubic shapes
+    sizes = [int(x) for x in g.choice(numpy.arange(1, 7), ndim, replace=False)]     # all different …
+    if ndim == 3 and g.uniform() < 0.4:                                             # … or two equal axes (a swap of equal-length axes is silent)
+        i, j = g.choice(3, 2, replace=False)
+        sizes[int(i)] = sizes[int(j)]
     edges = []
     for n in sizes:
         lo = float(g.uniform(-50., 50.))
